@@ -147,11 +147,20 @@ def run(ctx):
     ser_bad = [x for x in ser if x != "string-ok\teq"]
     env = run_impl(["envelope.new\t%d" % n for n in (0, 1, 3)])
     env_bad = [e for e, n in zip(env, (0, 1, 3)) if e != ("err\terr" if n == 0 else "%d\t%d" % (n, n))]
+    # the third way to an envelope: from the To / Cc / Bcc headers, each absent, an empty list, or 1..2 mailboxes
+    specs = [(a, b, c) for a in ("-", "0", "1", "2") for b in ("-", "0", "1") for c in ("-", "0", "1", "2")]
+    envh = run_impl(["envelope.headers\t%s\t%s\t%s" % sp for sp in specs])
+    for sp, r in zip(specs, envh):
+        n = sum(int(x) for x in sp if x != "-")
+        want = "%d\t%d" % (n, n) if n > 0 else "err\terr"
+        if r != want:
+            env_bad.append("To/Cc/Bcc = %s/%s/%s (- absent, 0 empty list): %s, expected %s" % (sp + (r.replace("\t", " / "), want.replace("\t", " / "))))
+    ctx.count(len(specs))
     ctx.cov["correspondence"] = {"addr.from_str": {"cases": len(strs), "exhaustive_alphabet": "a 1 @ \" \\ . [ ] < SP LF U+FF20", "exhaustive_maxlen": maxlen, "exhaustive_count": n_exh, "accepted": accepted, "disagreements": len(diffs)},
                                  "addr.new": {"cases": len(pairs), "disagreements": len(pdiff)}}
     ctx.cov["oracle"] = {"safety_and_rejoin_on_impl": {"accepted_checked": accepted, "failures": len(obad)},
                          "new_iff_parse_on_impl": {"pairs": len(pairs), "unexplained": len(iff_bad), "known_F15": f15},
-                         "serde_shapes": {"cases": len(ser), "failures": len(ser_bad)}, "envelope_nonempty": {"cases": 3, "failures": len(env_bad)},
+                         "serde_shapes": {"cases": len(ser), "failures": len(ser_bad)}, "envelope_nonempty": {"cases": 3 + len(specs), "failures": len(env_bad)},
                          "oracle_hypotheses": {"alnum_exhaustive": al, "idna_ip_answers_checked": len(doms), "violations": len(hyp_bad)}}
     ctx.cov["exhaustive"] = True
     ctx.cov["rule"] = ("Address::from_str on all strings over a 12-symbol alphabet up to length %d plus boundary/IDNA/IP/quoted cases and seeded random strings; Address::new on all splits of strings over an 8-symbol alphabet up to length %d; "
